@@ -2,7 +2,7 @@
    pydrex.tensors kernels and of the hand-written models Model_voigt / Model_decomp, used
    by the extracted OCaml driver for the correspondence runs. *)
 From Coq Require Import ZArith List Bool Arith.
-From PV Require Import Num Model_voigt Model_decomp.
+From PV Require Import Num Model_voigt Model_decomp Model_decomp_series.
 From PV.gen Require Import Gen_tensors.
 Import ListNotations.
 
@@ -88,5 +88,20 @@ Section Entry.
     if Nat.eqb (length xs) 54 then
       let '(m, r) := take 36 xs in let '(ed, ev) := take 9 r in
       elasticity_components1 (aol m) (aol ed) (aol ev)
+    else Err OtherError.
+
+  (* pydrex.diagnostics.elasticity_components for a series of n matrices: n x [M(36) Ed(9) Ev(9)];
+     output: per row a flag (1 = row written, 0 = row left as allocated) followed by the 11 values *)
+  Definition parse_ecin (xs : list F) : ecin :=
+    let '(m, r) := take 36 xs in let '(ed, ev) := take 9 r in (aol m, aol ed, aol ev).
+  Definition flat_row (r : ecrow) : list F :=
+    match r with Some l => one :: l | None => zero :: repeat zero 11 end.
+  Definition run_decomp_series (xs : list F) : res (list F) :=
+    let n := Nat.div (length xs) 54 in
+    if Nat.eqb (length xs) (n * 54) then
+      match elasticity_components_series (map parse_ecin (chunksL 54 n xs)) with
+      | Err e => Err e
+      | Ok tab => Ok (flat_map flat_row tab)
+      end
     else Err OtherError.
 End Entry.
